@@ -1,0 +1,308 @@
+//go:build verif
+
+package smtp
+
+import (
+	"bytes"
+	"context"
+	"fmt"
+	"runtime"
+	"strconv"
+	"sync"
+
+	"github.com/emersion/go-message/textproto"
+	"github.com/emersion/go-smtp"
+	"github.com/foxcpp/maddy/framework/address"
+	"github.com/foxcpp/maddy/framework/buffer"
+	"github.com/foxcpp/maddy/framework/exterrors"
+	"github.com/foxcpp/maddy/framework/module"
+)
+
+// Trace hooks of the verification harness (/verif, property C03), compiled only with the build
+// tag "verif" and silent unless VerifTraceSink is set. Events of one Session object, in program
+// order (`seq` is assigned under the tracer's mutex):
+//
+//	Sess   a Session object was created (lmtp)
+//	Cmd    go-smtp called Mail/Rcpt/Data/LMTPData/Reset/Logout (method entry; v, arg, clean, cls, defer)
+//	PStart/PAddRcpt/PBody/PBodyNA/PCommit/PAbort
+//	       a call on the pipeline delivery the session holds has returned (result class, and
+//	       ts = "closed" when the delivery object had already been committed or aborted)
+//	Reply  the method returned: the code of the error handed to go-smtp (250 = nil); that is the
+//	       reply go-smtp puts on the wire
+//	End    Logout returned: number of pipeline deliveries of this session still open
+//
+// The hooks only observe: no hook changes what the session does.
+
+// VerifTraceSink receives the events (key = session number).
+var VerifTraceSink func(ev map[string]interface{})
+
+type verifSessState struct {
+	key   string
+	nDel  int
+	open  int
+	reply int // code noted during the running call, 0 = none
+}
+
+var (
+	verifMu    sync.Mutex
+	verifSeq   int
+	verifNSess int
+	verifSess  = map[*Session]*verifSessState{}
+	verifGo    = map[uint64]*Session{} // goroutine -> session whose method it is running
+)
+
+func verifGoID() uint64 {
+	var buf [64]byte
+	b := buf[:runtime.Stack(buf[:], false)]
+	b = bytes.TrimPrefix(b, []byte("goroutine "))
+	if i := bytes.IndexByte(b, ' '); i > 0 {
+		id, _ := strconv.ParseUint(string(b[:i]), 10, 64)
+		return id
+	}
+	return 0
+}
+
+func verifClass(err error) string {
+	switch {
+	case err == nil:
+		return "ok"
+	case exterrors.IsTemporary(err):
+		return "temp"
+	}
+	return "perm"
+}
+
+// caller holds verifMu
+func verifEmitLocked(st *verifSessState, e string, f map[string]interface{}) {
+	verifSeq++
+	ev := map[string]interface{}{"key": st.key, "seq": verifSeq, "e": e}
+	for k, v := range f {
+		ev[k] = v
+	}
+	VerifTraceSink(ev)
+}
+
+func verifState(s *Session) *verifSessState {
+	st := verifSess[s]
+	if st == nil { // a Session built by hand in a test
+		verifNSess++
+		st = &verifSessState{key: fmt.Sprintf("S%d", verifNSess)}
+		verifSess[s] = st
+		verifEmitLocked(st, "Sess", map[string]interface{}{"lmtp": s.endp != nil && s.endp.lmtp, "byhand": true})
+	}
+	return st
+}
+
+func verifSession(s *Session) {
+	if VerifTraceSink == nil {
+		return
+	}
+	verifMu.Lock()
+	defer verifMu.Unlock()
+	verifNSess++
+	st := &verifSessState{key: fmt.Sprintf("S%d", verifNSess)}
+	verifSess[s] = st
+	verifEmitLocked(st, "Sess", map[string]interface{}{"lmtp": s.endp.lmtp, "byhand": false})
+}
+
+// verifCall is deferred as `defer verifCall(s, verb, arg)()` in the first line of a Session
+// method: the Cmd event at entry, the Reply (and, for Logout, End) event at exit.
+func verifCall(s *Session, verb, arg string) func() {
+	if VerifTraceSink == nil {
+		return func() {}
+	}
+	gid := verifGoID()
+	verifMu.Lock()
+	st := verifState(s)
+	st.reply = 0
+	verifGo[gid] = s
+	cls, clean := "ok", arg
+	if verb == "MAIL" && arg == "" {
+		cls = "null"
+	} else if verb == "MAIL" || verb == "RCPT" {
+		if c, err := address.CleanDomain(arg); err == nil && c != arg {
+			cls, clean = "up", c
+		}
+	}
+	verifEmitLocked(st, "Cmd", map[string]interface{}{"v": verb, "arg": arg, "clean": clean, "cls": cls,
+		"defer": s.endp.deferServerReject, "lmtp": s.endp.lmtp})
+	verifMu.Unlock()
+	return func() {
+		verifMu.Lock()
+		defer verifMu.Unlock()
+		if verifGo[gid] == s {
+			delete(verifGo, gid)
+		}
+		code := st.reply
+		if code == 0 {
+			code = 250
+		}
+		if verb != "RSET" && verb != "QUIT" {
+			verifEmitLocked(st, "Reply", map[string]interface{}{"v": verb, "code": code})
+		}
+		if verb == "QUIT" {
+			verifEmitLocked(st, "End", map[string]interface{}{"open": st.open})
+			delete(verifSess, s)
+		}
+	}
+}
+
+// verifReplyErr notes an error a Session method is about to return without passing it
+// through wrapErr.
+func verifReplyErr(s *Session, err error) {
+	if VerifTraceSink == nil || err == nil {
+		return
+	}
+	code := 554
+	if se, ok := err.(*smtp.SMTPError); ok {
+		code = se.Code
+	}
+	verifMu.Lock()
+	defer verifMu.Unlock()
+	if st := verifSess[s]; st != nil {
+		st.reply = code
+	}
+}
+
+// verifReplyCode: as verifReplyErr, for an error built in the return statement.
+func verifReplyCode(s *Session, code int) {
+	if VerifTraceSink == nil {
+		return
+	}
+	verifMu.Lock()
+	defer verifMu.Unlock()
+	if st := verifSess[s]; st != nil {
+		st.reply = code
+	}
+}
+
+// verifWrapped notes the code of the reply wrapErr built; the session is the one whose method
+// runs in this goroutine (wrapErr is a method of the endpoint).
+func verifWrapped(endp *Endpoint, code int) {
+	if VerifTraceSink == nil {
+		return
+	}
+	gid := verifGoID()
+	verifMu.Lock()
+	defer verifMu.Unlock()
+	if s := verifGo[gid]; s != nil && s.endp == endp {
+		if st := verifSess[s]; st != nil {
+			st.reply = code
+		}
+	}
+}
+
+type verifDelivery struct {
+	s      *Session
+	st     *verifSessState
+	n      int
+	inner  module.Delivery
+	closed bool
+	acc    []string
+}
+
+func (d *verifDelivery) emit(e string, f map[string]interface{}) {
+	verifMu.Lock()
+	defer verifMu.Unlock()
+	if f == nil {
+		f = map[string]interface{}{}
+	}
+	f["d"] = d.n
+	f["ts"] = "ok"
+	if d.closed && e != "PStart" {
+		f["ts"] = "closed"
+	}
+	verifEmitLocked(d.st, e, f)
+}
+
+func (d *verifDelivery) close() {
+	verifMu.Lock()
+	defer verifMu.Unlock()
+	if !d.closed {
+		d.closed = true
+		d.st.open--
+	}
+}
+
+// verifWrapDelivery is called with the result of pipeline.Start: it logs PStart and, when a
+// delivery was obtained, wraps it so that every later call on it is logged.
+func verifWrapDelivery(s *Session, d module.Delivery, err error) module.Delivery {
+	if VerifTraceSink == nil {
+		return d
+	}
+	verifMu.Lock()
+	st := verifState(s)
+	st.nDel++
+	w := &verifDelivery{s: s, st: st, n: st.nDel, inner: d}
+	if err == nil {
+		st.open++
+	}
+	verifMu.Unlock()
+	w.emit("PStart", map[string]interface{}{"res": verifClass(err)})
+	if err != nil || d == nil {
+		return d
+	}
+	if _, ok := d.(module.PartialDelivery); ok {
+		return verifPartialDelivery{w}
+	}
+	return w
+}
+
+func (d *verifDelivery) AddRcpt(ctx context.Context, rcptTo string, opts smtp.RcptOptions) error {
+	err := d.inner.AddRcpt(ctx, rcptTo, opts)
+	if err == nil {
+		d.acc = append(d.acc, rcptTo)
+	}
+	d.emit("PAddRcpt", map[string]interface{}{"r": rcptTo, "res": verifClass(err)})
+	return err
+}
+
+func (d *verifDelivery) Body(ctx context.Context, header textproto.Header, body buffer.Buffer) error {
+	err := d.inner.Body(ctx, header, body)
+	d.emit("PBody", map[string]interface{}{"res": verifClass(err)})
+	return err
+}
+
+type verifPartialDelivery struct{ *verifDelivery }
+
+type verifCollector struct {
+	mu    sync.Mutex
+	inner module.StatusCollector
+	st    map[string]string
+}
+
+func (c *verifCollector) SetStatus(rcptTo string, err error) {
+	c.mu.Lock()
+	c.st[rcptTo] = verifClass(err)
+	c.mu.Unlock()
+	c.inner.SetStatus(rcptTo, err)
+}
+
+func (d verifPartialDelivery) BodyNonAtomic(ctx context.Context, c module.StatusCollector, header textproto.Header, body buffer.Buffer) {
+	vc := &verifCollector{inner: c, st: map[string]string{}}
+	d.inner.(module.PartialDelivery).BodyNonAtomic(ctx, vc, header, body)
+	st := map[string]string{}
+	for _, r := range d.acc { // no status call = no failure reported
+		st[r] = "ok"
+	}
+	vc.mu.Lock()
+	for r, v := range vc.st {
+		st[r] = v
+	}
+	vc.mu.Unlock()
+	d.emit("PBodyNA", map[string]interface{}{"st": st})
+}
+
+func (d *verifDelivery) Commit(ctx context.Context) error {
+	err := d.inner.Commit(ctx)
+	d.emit("PCommit", map[string]interface{}{"res": verifClass(err)})
+	d.close()
+	return err
+}
+
+func (d *verifDelivery) Abort(ctx context.Context) error {
+	err := d.inner.Abort(ctx)
+	d.emit("PAbort", map[string]interface{}{"res": verifClass(err)})
+	d.close()
+	return err
+}
